@@ -81,8 +81,9 @@ def check_config(cfg, w, rep):
         lf = prog.fns[p]
         t = w.sym.of_place(lf.body, 0, ())
         # the digest input is exactly the parameter (identity): no case folding / trimming / normalisation
-        ins = [st for st in walk(t) if st[0] == "call" and st[1].endswith("Digest>::update")]
-        ok = len(ins) == 1 and len(ins[0][2]) == 1 and ins[0][2][0] == ("param", lf.path, 0, ())
+        # (one digest call may occur in several places of the term, under different projections)
+        ins = sorted({(st[0], st[1], st[2]) for st in walk(t) if st[0] == "call" and DIGEST_INPUT.search(st[1])}, key=repr)
+        ok = len(ins) == 1 and len(ins[0][2]) == 1 and ins[0][2][0][0] == "param" and ins[0][2][0][1] == lf.path and not ins[0][2][0][3]
         if ok:
             rep.ob(cfg, "b-hash-input", fn_key(lf), "`%s` hashes its argument unchanged" % short(p))
         else:
@@ -154,6 +155,9 @@ def check_config(cfg, w, rep):
     rep.floor("read_only_entries", n_ro, 22 if is_async else 11, cfg)
 
 
+DIGEST_INPUT = re.compile(r"Digest>::(update|digest|chain_update|new_with_prefix)$")
+
+
 def key_leaks(w, t, lf):
     """Occurrences of the key parameter (#1) outside a HASH_KEY(...) call in the bucket-path term."""
     bad = []
@@ -165,8 +169,9 @@ def key_leaks(w, t, lf):
         if k == "param" and x[1] == lf.path and x[2] == 1 and not inside:
             bad.append(term_str(x))
         if k == "call":
-            ins = inside or (x[1] in w.roles.hash_fns and w.roles.hash_fns[x[1]] == "sha1")
-            if x[1] in w.roles.hash_fns and not (len(x[2]) == 1 and x[2][0] == ("param", lf.path, 1, ())):
+            is_hash = (x[1] in w.roles.hash_fns and x[1] != lf.path) or bool(DIGEST_INPUT.search(x[1]))
+            ins = inside or is_hash
+            if is_hash and not (len(x[2]) == 1 and x[2][0] == ("param", lf.path, 1, ())):
                 bad.append("hash input is %s" % term_str(x[2][0])[:60] if x[2] else "?")
             for a in x[2]:
                 rec(a, ins)
